@@ -560,11 +560,11 @@ impl<T: AsRef<[u8]>> UdpNhcPacket<T> {
                 NetworkEndian::read_u16(&data[idx + 2..idx + 4])
             }
             0b01 => {
-                // The first 8 bits are elided.
+                // The first 8 bits are elided; the byte follows the 16-bit source port.
                 let data = self.buffer.as_ref();
                 let idx = self.nhc_fields_start();
 
-                0xf000 + data[idx] as u16
+                0xf000 + data[idx + 2] as u16
             }
             0b10 => {
                 // The full 16 bits are carried in-line.
@@ -578,7 +578,7 @@ impl<T: AsRef<[u8]>> UdpNhcPacket<T> {
                 let data = self.buffer.as_ref();
                 let start = self.nhc_fields_start();
 
-                0xf0b0 + (data[start] & 0xff) as u16
+                0xf0b0 + (data[start] & 0x0f) as u16
             }
             _ => unreachable!(),
         }
